@@ -67,7 +67,8 @@ fn main() {
             let limit: Option<u64> = args[7].parse().ok();
             let no_min = args.get(8).map(|s| s == "nomin").unwrap_or(false);
             let c = find(id).expect("check");
-            harness::worker(c, tier, seed, k, n, limit, no_min);
+            let start_from: u64 = args.get(9).and_then(|s| s.parse().ok()).unwrap_or(0);
+            harness::worker(c, tier, seed, k, n, limit, no_min, start_from);
             0
         }
         Some("replay") => harness::replay(&reg, &args[2]),
